@@ -88,10 +88,11 @@ fn gen_chunk(rng: &mut Rng, out: &mut Vec<u8>) {
                        else { let n = rng.below(40) as usize; rng.bytes(n) };
             v.extend(body); chunk(out, 0, rng.below(8) as u8, &v) }
         4 => { // SACK
-            let mut v = (rng.next() as u32).to_be_bytes().to_vec(); v.extend_from_slice(&(rng.next() as u32).to_be_bytes());
+            let r = rng.next() as u32; let ca = if rng.chance(1, 3) { *rng.pick(&[0u32, 1, 0x7FFF_FFFF, 0x8000_0000, 0xFFFF_FFF0, 0xFFFF_FFFE, 0xFFFF_FFFF]) } else { r };
+            let mut v = ca.to_be_bytes().to_vec(); v.extend_from_slice(&(rng.next() as u32).to_be_bytes());
             let actual = rng.below(5) as u16; let claimed = *rng.pick(&[actual, actual, actual + 1, 0, 0xFFFF]);
             v.extend_from_slice(&claimed.to_be_bytes()); v.extend_from_slice(&(rng.below(3) as u16).to_be_bytes());
-            for _ in 0..actual { v.extend_from_slice(&(rng.below(50) as u16).to_be_bytes()); v.extend_from_slice(&(rng.below(50) as u16).to_be_bytes()); }
+            for _ in 0..actual { for _ in 0..2 { let g = if rng.chance(1, 4) { *rng.pick(&[0u16, 1, 0x8000, 0xFFFF]) } else { rng.below(50) as u16 }; v.extend_from_slice(&g.to_be_bytes()); } }
             chunk(out, 3, 0, &v) }
         5 => { let n = rng.below(24) as usize; chunk(out, 4, 0, &rng.bytes(n)) }
         6 => { let mut v = (rng.next() as u32).to_be_bytes().to_vec(); for _ in 0..rng.below(4) { v.extend_from_slice(&(rng.next() as u32).to_be_bytes()); } if rng.chance(1, 4) { v.push(1); } chunk(out, 192, 0, &v) }
